@@ -184,6 +184,7 @@ def run_schedule(schedule):
 
     inflight_ops = ex_mod._InflightOperations()  # pylint: disable=protected-access
     w.op_results = []
+    w.op_labels = []
     w.known = set()
     real_wait = helper.wait
 
@@ -217,9 +218,9 @@ def run_schedule(schedule):
                 ev = rest.pop(0)
                 if ev[0] == "spawn":
                     w.running += 1
-                    if len(ev) > 1 and ev[2]:      # ("spawn", pid, registered?)
+                    if len(ev) > 1 and ev[2]:      # ("spawn", pid, registered?[, label])
                         w.known.add(ev[1])
-                        inflight_ops.add_op(OperationExecutionHandle.from_async_process(ev[1]), "op-%d" % ev[1])
+                        inflight_ops.add_op(OperationExecutionHandle.from_async_process(ev[1]), ev[3] if len(ev) > 3 else "op-%d" % ev[1])
                 elif ev[0] == "exit":
                     w.running -= 1
                     w.exit_child(ev[1], ev[2])
@@ -239,6 +240,7 @@ def run_schedule(schedule):
                         if w.known and len(inflight_ops) > 0:
                             handle, _op = inflight_ops.wait_for_next_op()
                             w.op_results.append((handle.pid, handle.returncode))
+                            w.op_labels.append(_op)
                         else:
                             helper.wait()
                     except Blocked:
@@ -328,7 +330,30 @@ def gen_schedule(rng):
     return sched
 
 
+def pid_reuse_case(chk):
+    """Known finding F4 (latent): the SIGCHLD handler reaps with waitpid(-1) at once, so the pid of an exited task is free
+    again while its (pid, status) record still waits in the queue; the executor keys its in-flight table by pid.  If the
+    next task it launches is given that pid (a pid wrap within the few milliseconds between two waits), the new entry
+    overwrites the old one and the queued exit is charged to the NEW operation: a task that has just been started is
+    reported finished, the one that did finish never is.  Shown here on the real SigchldHelper and _InflightOperations
+    under the simulated kernel; on a real kernel it needs pid_max to be almost exhausted."""
+    sched = [("spawn", 1, True, "first-op"), ("spawn", 2, True, "other-op"), ("exit", 1, 0), ("deliver",), ("handler",),
+             ("spawn", 1, True, "second-op-with-the-recycled-pid"), ("wait",)]
+    w = run_schedule(sched)
+    chk.coverage["evaluations"] += 1
+    chk.count("reaper-protocol", "pid-reuse")
+    if w.crash and w.crash.startswith(HARNESS_FAULT):
+        chk.violation("tie-broken", "the simulated-kernel harness no longer fits the executor's internals: %s" % w.crash[:300],
+                      {"theorem_or_tie": "refinement harness (harness/reaper_model.py) vs executor.py _InflightOperations", "detail": w.crash}, found_input=False)
+        return
+    if w.op_labels and w.op_labels[0] != "first-op":
+        chk.violation("impl-violation", "pid reuse: process 1 exits and is reaped, a new task is then given pid 1, and the queued exit of the first one is handed to the executor as the completion of %r (which has only just been started)" % (w.op_labels[0],),
+                      {"input": {"part": "reaper-protocol", "schedule": [list(e) for e in sched]}, "impl_observation": {"completions": [list(r) for r in w.op_results], "operations": w.op_labels},
+                       "oracle_verdict": "the completion belongs to 'first-op'"}, match_key={"reaper": "pid-reuse"}, size=len(sched))
+
+
 def protocol_part(chk, tier):
+    pid_reuse_case(chk)
     rng = chk.rng
     n = 400 if tier == "quick" else 6000
     cases = [
